@@ -30,7 +30,7 @@ INITIATOR_NAMES = ["naa.62004567BA64678D0123456789ABCDEF", "naa.52004567BA64678D
 
 
 def shards(tier, seed):
-    out = [{"id": n, "sgio": s, "iscsi": i, "n": 30 if tier == "quick" else 600, "version": VERSIONS[(seed + k) % len(VERSIONS)]} for k, (n, s, i) in enumerate(CONFIGS)]
+    out = [{"id": n, "sgio": s, "iscsi": i, "n": 30 if tier == "quick" else 2500, "version": VERSIONS[(seed + k) % len(VERSIONS)]} for k, (n, s, i) in enumerate(CONFIGS)]
     # the library as it is installed: built from the tree (setup.py build, what a wheel would contain), not the source directory
     out += [{"id": "built-" + n, "sgio": s, "iscsi": i, "n": 10 if tier == "quick" else 100, "version": VERSIONS[(seed + 3 + k) % len(VERSIONS)], "built": True}
             for k, (n, s, i) in enumerate(CONFIGS) if n in ("none", "both")]
